@@ -166,7 +166,7 @@ class do_realize_lazy_struct(Contract):
 
     def post(self, c):
         return [('failure is -1 with an exception, counted as an external failure',
-                 z3.And(z3.Implies(c.result < 0, z3.And(c.new.err != 0, z3.UGT(events(c.new), events(c.old)))),
+                 z3.And(z3.Implies(c.result < 0, z3.And(c.new.err != 0, events(c.new) != events(c.old))),
                         z3.Implies(c.result >= 0, events(c.new) == events(c.old))))]
 
 
@@ -190,7 +190,7 @@ class force_lazy_struct(Contract):
                             z3.And(c.result == b2i(F(c, c.old, ct, 'ct_stuff') != 0), c.new.err == c.old.err,
                                    events(c.new) == events(c.old)))),
                 ('failure is -1 with an exception, counted as an external failure',
-                 z3.Implies(c.result < 0, z3.And(c.new.err != 0, z3.UGT(events(c.new), events(c.old)))))]
+                 z3.Implies(c.result < 0, z3.And(c.new.err != 0, events(c.new) != events(c.old))))]
 
 
 def kind_is(c, st, ct, mask):
@@ -202,14 +202,60 @@ is_ctype = R.ghost('is_ctype', B64, z3.BoolSort())
 
 def ctype_closure(c, st):
     """type invariant of ctype descriptors (established by the constructors new_array_type etc.): a ctype is a
-    valid object; the item type of an array ctype is a ctype; array_base(t) is defined by
+    valid object of exactly one kind; the item type of an array ctype is a ctype; array_base(t) is defined by
     array_base(t) = array_base(item(t)) for an array type t, else t"""
     t = z3.BitVec('t!ct', 64)
-    isarr = (F(c, st, t, 'ct_flags') & CT_ARRAY) != 0
+    fl = F(c, st, t, 'ct_flags')
+    isarr = (fl & CT_ARRAY) != 0
     item = F(c, st, t, 'ct_itemdescr')
+    one_kind = z3.And(*[z3.Not(z3.And(flag(fl, a), flag(fl, b))) for k, a in enumerate(KIND_FLAGS) for b in KIND_FLAGS[k + 1:]])
     return z3.ForAll([t], z3.Implies(is_ctype(t), z3.And(
-        c.valid(t, 104), z3.If(isarr, z3.And(is_ctype(item), abase(t) == abase(item)), abase(t) == t))),
+        c.valid(t, 104), one_kind, z3.If(isarr, z3.And(is_ctype(item), abase(t) == abase(item)), abase(t) == t))),
         patterns=[is_ctype(t)])
+
+
+def _heap_of(sel):
+    return sel.arg(0)
+
+
+def ctype_inv(c, st):
+    """the ctype invariant as an opaque atom over the two heaps it reads (obligations that need its content get the
+    definition  ctype_inv(heaps) == ctype_closure  as an extra hypothesis; the others stay quantifier-free)"""
+    z = BV(0, 64)
+    hf, hi = _heap_of(F(c, st, z, 'ct_flags')), _heap_of(F(c, st, z, 'ct_itemdescr'))
+    return R.ghost('ctype_inv', hf.sort(), hi.sort(), z3.BoolSort())(hf, hi)
+
+
+def ctype_inv_def(c, st):
+    return ctype_inv(c, st) == ctype_closure(c, st)
+
+
+is_cfield = R.ghost('is_cfield', B64, z3.BoolSort())
+
+
+def cfield_inv(c, st):
+    z = BV(0, 64)
+    hn, ht = _heap_of(F(c, st, z, 'cf_next', CF)), _heap_of(F(c, st, z, 'cf_type', CF))
+    return R.ghost('cfield_inv', hn.sort(), ht.sort(), z3.BoolSort())(hn, ht)
+
+
+def cfield_inv_def(c, st):
+    return cfield_inv(c, st) == cfield_closure(c, st)
+
+
+def cfield_ok(c, st, f):
+    """instance of the field-list invariant at f"""
+    nxt = F(c, st, f, 'cf_next', CF)
+    return z3.And(is_cfield(f), c.valid(f, CF_SIZE), c.valid(F(c, st, f, 'cf_type', CF), 104))
+
+
+def cfield_closure(c, st):
+    """the field list of a completed struct/union: every link is NULL or a valid CField object whose type is a ctype"""
+    f = z3.BitVec('f!cf', 64)
+    nxt = F(c, st, f, 'cf_next', CF)
+    return z3.ForAll([f], z3.Implies(is_cfield(f), z3.And(c.valid(f, CF_SIZE), c.valid(F(c, st, f, 'cf_type', CF), 104),
+                                                         z3.Or(nxt == 0, is_cfield(nxt)))),
+                     patterns=[is_cfield(f)])
 
 
 def align_of(c, st, ct):
@@ -237,13 +283,15 @@ class get_alignment(Contract):
     def pre(self, c):
         ct = c['ct']
         return [('ct is a ctype', z3.And(is_ctype(ct), c.valid(ct, 104))), ('base-valid', c.valid(abase(ct), 104)),
-                ('ctype invariant: item types of arrays are ctypes', ctype_closure(c, c.old)),
+                ('ctype invariant: item types of arrays are ctypes', ctype_inv(c, c.old)),
                 ('no-pending-exception', c.old.err == 0)]
 
     def scope(self, c):
         b = abase(c['ct'])
         return [('the element type is not an API-mode struct waiting to be realised',
-                 F(c, c.old, b, 'ct_lazy_field_list') == 0)]
+                 F(c, c.old, b, 'ct_lazy_field_list') == 0),
+                ('definition of the opaque atom ctype_inv (conservative: it only names the quantified invariant)',
+                 ctype_inv_def(c, c.old))]
 
     def frame(self, c):
         return Frame(err=True, ghost=[EVENTS], havoc_if=F(c, c.old, abase(c['ct']), 'ct_lazy_field_list') != 0)
@@ -251,14 +299,10 @@ class get_alignment(Contract):
     def _inv(self, c, st):
         ct0 = c['ct']
         cur = c.local(st, 'ct')
-        entry = getattr(c, 'entry', st)
-        keys = set(c.old.fh) | set(entry.fh) | set(st.fh)
         return [('the current type has the same array base as the argument', abase(cur) == abase(ct0)),
-                ('the current type is a ctype', z3.And(is_ctype(cur), c.valid(cur, 104))),
-                ('nothing has been written so far', z3.And(_heaps_same(st, c.old, keys), st.raw == c.old.raw,
-                                                          st.err == c.old.err, events(st) == events(c.old)))]
+                ('the current type is a ctype', z3.And(is_ctype(cur), c.valid(cur, 104)))]
 
-    labels = property(lambda self: {'retry': LoopSpec(invariant=self._inv)})
+    labels = property(lambda self: {'retry': LoopSpec(invariant=self._inv, readonly=True)})
 
     def post(self, c):
         val, defined, b = align_of(c, c.old, c['ct'])
@@ -329,7 +373,7 @@ class _add_field(Contract):
                                            g('cf_flags') == z3.Extract(7, 0, c['flags']),
                                            events(c.new) == events(c.old), c.new.err == c.old.err))),
                 ('NULL only for an external failure or a duplicate member name, with an exception set',
-                 z3.Implies(r == 0, z3.And(c.new.err != 0, z3.UGT(events(c.new), events(c.old)))))]
+                 z3.Implies(r == 0, z3.And(c.new.err != 0, events(c.new) != events(c.old))))]
 
 
 # ---------------------------------------------------------------------------------------------------------------
@@ -398,9 +442,11 @@ class Member:
             z3.Or(z3.And(self.size >= 0, self.size < BOUND), z3.And(self.flexible, z3.Not(self.is_bf), last)),
             (self.flags & (CT_VOID | CT_IS_OPAQUE)) == 0,
             z3.Implies(self.is_aggr, z3.And(F(c, st, ft, 'ct_lazy_field_list') == 0,
-                                            F(c, st, ft, 'ct_stuff') != 0)),
+                                            F(c, st, ft, 'ct_stuff') != 0,
+                                            z3.Or(F(c, st, ft, 'ct_extra') == 0, cfield_ok(c, st, F(c, st, ft, 'ct_extra'))))),
             # bit-fields: integer or _Bool type, 0 <= width <= 8*sizeof, ':0' unnamed, never under packing
             z3.Implies(self.is_bf, z3.And(intlike, s64(self.bits) <= self.size * 8, self.size <= 8,
+                                          s64(self.align32) == self.size,      # integer types are naturally aligned here (C06)
                                           z3.Implies(self.bits == 0, z3.Not(self.named)), z3.Not(packed))),
             self.off == BV(-1, 64),                        # no forced offsets in a declaration without '...'
             ulen(self.name) >= 0)
@@ -421,12 +467,19 @@ class FieldLoop(Contract):
     def _loop1_inv(self, c, st):
         # nested loop over the members of an anonymous struct/union: the layout state is not touched
         entry = getattr(c, 'entry', st)
-        same = [c.local(st, k) == c.local(entry, k) for k in LOCALS if k != 'previous'] + \
-               [c.local(st, k) == c.local(entry, k) for k in ('fflags', 'ftype', 'fname', 'fbitsize', 'foffset',
-                                                            'falign', 'falignorg', 'do_align')]
+        names = [k for k in LOCALS if k != 'previous'] + ['fflags', 'ftype', 'fname', 'fbitsize', 'foffset', 'falign',
+                                                         'falignorg', 'do_align']
+        same = [('%s unchanged' % k, c.local(st, k) == c.local(entry, k)) for k in names]
         ft = c.local(entry, 'ftype')
-        return [('layout state and member description unchanged', z3.And(*same)),
-                ('previous points to a link slot', c.valid(c.local(st, 'previous'), 8)),
+        src = c.local(st, 'cfsrc')
+        prev = c.local(st, 'previous')
+        return same + [
+                ('previous points to a link slot outside this frame', z3.And(c.valid(prev, 8), c.off_stack(prev, 8))),
+                ('the source is NULL or a field object of the anonymous member (valid, with a valid type)',
+                 z3.Or(src == 0, cfield_ok(c, st, src)), [cfield_inv_def(c, st)]),
+                ('field lists of completed aggregates stay well-formed', cfield_inv(c, st)),
+                ('CField_Type is an ordinary small type',
+                 F(c, st, c.ex.global_addr('CField_Type'), 'tp_basicsize', 'PyTypeObject') == CF_SIZE),
                 ('the member type keeps its size', F(c, st, ft, 'ct_size') == F(c, entry, ft, 'ct_size')),
                 ('the aggregate keeps its kind and flags',
                  z3.And(F(c, st, c['ct'], 'ct_flags') == F(c, entry, c['ct'], 'ct_flags'),
@@ -448,7 +501,8 @@ class FieldLoop(Contract):
              z3.And((F(c, st, c['ct'], 'ct_flags') & (CT_STRUCT | CT_UNION)) != 0)),
             ('CField_Type is an ordinary small type',
              F(c, st, c.ex.global_addr('CField_Type'), 'tp_basicsize', 'PyTypeObject') == CF_SIZE),
-            ('ctype invariant: item types of arrays are ctypes', ctype_closure(c, st)),
+            ('ctype invariant: item types of arrays are ctypes', ctype_inv(c, st)),
+            ('field lists of completed aggregates are well-formed', cfield_inv(c, st)),
             ('no-pending-exception', st.err == 0)]
 
     def witness(self, c):
@@ -478,12 +532,17 @@ class FieldLoop(Contract):
         whole = L.total(sp['maxend'], sp['align'])
         return [(lab + ' (invariant preserved)', g_) for lab, g_ in inv1[:8]] + [
             ('previous still points to a link slot', inv1[8][1]),
-            ('first free bit afterwards = ABI step', pos1 == sp['pos']),
-            ('alignment afterwards = ABI step', s64(v1['alignment']) == sp['align']),
-            ('bytes used afterwards = ABI step', v1['byteoffsetmax'] == sp['maxend']),
-            ('ordinary member: one field object at the ABI byte offset, marked as not a bit-field',
-             z3.Implies(added_plain, z3.And(newcf != 0, g('cf_type') == m.ftype, g('cf_offset') == sp['offset'],
-                                            g('cf_bitshift') == bs_flag, g('cf_bitsize') == BV(-1, 16),
+        ] + [
+            ('%s: %s afterwards = ABI step' % (kind, what), z3.Implies(case, got == sp[key]))
+            for kind, case in (('ordinary member', z3.Not(m.is_bf)), ('T :0', z3.And(m.is_bf, m.bits == 0)),
+                               ('bit-field of width > 0', z3.And(m.is_bf, m.bits > 0)))
+            for what, got, key in (('first free bit', pos1, 'pos'), ('alignment', s64(v1['alignment']), 'align'),
+                                   ('bytes used', v1['byteoffsetmax'], 'maxend'))
+        ] + [
+            ('ordinary member: one field object of the member type at the ABI byte offset',
+             z3.Implies(added_plain, z3.And(newcf != 0, g('cf_type') == m.ftype, g('cf_offset') == sp['offset']))),
+            ('ordinary member: marked as not a bit-field, linked into the list',
+             z3.Implies(added_plain, z3.And(g('cf_bitshift') == bs_flag, g('cf_bitsize') == BV(-1, 16),
                                             v1['previous'] == newcf + CF_NEXT))),
             ('ordinary member lies inside the aggregate',
              z3.Implies(z3.Not(m.is_bf), sp['offset'] + s_eff <= whole)),
@@ -508,7 +567,7 @@ class FieldLoop(Contract):
 
     def post_goto(self, c, label):
         return [('a member of the class is rejected only after an external failure or a duplicate name',
-                 z3.And(z3.UGT(events(c.new), events(c.old)), c.new.err != 0))]
+                 z3.And(events(c.new) != events(c.old), c.new.err != 0))]
 
 
 R.add(FieldLoop)
@@ -549,7 +608,7 @@ class AnonLoop(Contract):
 
     def post_goto(self, c, label):
         return [('left only after an external failure or a duplicate name',
-                 z3.And(z3.UGT(events(c.new), events(c.old)), c.new.err != 0))]
+                 z3.And(events(c.new) != events(c.old), c.new.err != 0))]
 
 
 R.add(AnonLoop)
@@ -609,4 +668,4 @@ class b_complete_struct_or_union_lock_held(Contract):
                 ('alignof = the largest member alignment', z3.Implies(ok, F(c, st, ct, 'ct_length') == s64(align))),
                 ('the type is marked complete', z3.Implies(ok, F(c, st, ct, 'ct_unrealized_struct_or_union') == 0)),
                 ('outside the loop nothing is rejected: failure only after an external failure',
-                 z3.Implies(z3.Not(ok), z3.And(c.new.err != 0, z3.UGT(events(c.new), events(c.old)))))]
+                 z3.Implies(z3.Not(ok), z3.And(c.new.err != 0, events(c.new) != events(c.old))))]
